@@ -164,7 +164,7 @@ theorem replica_reopen_exact (C : Crypto) (hC : TreeStore.HashWF C) (hT : TreeSt
       (∀ i, s2.1.has i = HashReq.fetched (ReplicaReopen.exchanges acts) i)
         ∧ (∀ i, i < s2.1.info.contiguous → HashReq.fetched (ReplicaReopen.exchanges acts) i = true)
         ∧ HashReq.fetched (ReplicaReopen.exchanges acts) s2.1.info.contiguous = false := by
-  obtain ⟨c, j, e1, e2, e3, e4, e5⟩ := ReplicaReopen.init_replica C pk hpk
+  obtain ⟨c, j, e1, e2, e3, e4, e5, e6⟩ := ReplicaReopen.init_replica C pk hpk
   refine ⟨c, j, e1, ?_⟩
   intro d st1 s2
   have hsz := Growth.size_extract bs n₁ hn
@@ -172,7 +172,7 @@ theorem replica_reopen_exact (C : Crypto) (hC : TreeStore.HashWF C) (hT : TreeSt
     rw [hsz, Growth.psum_extract bs n₁ hn n₁ (Nat.le_refl _)]
     have := Offsets.psum_mono bs hn; omega⟩
   have hver' : C.verify c.publicKey (Growth.signableAt C bs n₁ c.tree.fork) sig = true := by rw [e2, e3]; exact hver
-  obtain ⟨_, r2, r3, r4⟩ := ReplicaReopen.rp_first C hC hT bs hs n₁ h0 hn c d hfresh ⟨_, _, e5⟩ sig hsl hver'
+  obtain ⟨_, r2, r3, r4⟩ := ReplicaReopen.rp_first C hC hT bs hs n₁ h0 hn c d hfresh ⟨_, _, e5, e6 bs⟩ sig hsl hver'
   rw [e3] at r2 r3 r4
   obtain ⟨q1, _⟩ := ReplicaReopen.playR_rp C hC hT bs pk 0 acts n₁ _ _ _ r2 h0 (by rw [r3, e2]) r4 hok
   have hb : ∀ i, s2.1.has i = HashReq.fetched (ReplicaReopen.exchanges acts) i := fun i => by
